@@ -383,8 +383,12 @@ class Frame:
             if value.ndim != 1:
                 raise ValueError("column must be 1-dimensional")
             col = value                    # worst case allowed by the contract: no copy
-        elif isinstance(value, list):
-            col = list(value)              # pandas copies a list into the frame
+        elif isinstance(value, (list, tuple)):
+            col = list(value)              # pandas copies a list/tuple into the frame, element i for row i
+        elif value is None or isinstance(value, (int, float, str, bool)):
+            if self.n is None:
+                raise StubLimit("scalar broadcast into an empty frame")
+            col = [value] * self.n         # pandas broadcasts a scalar to every row
         else:
             raise StubLimit("column assignment from %s not modelled" % type(value).__name__)
         if self.n is None:
